@@ -20,6 +20,8 @@ spec fn ctxKept(c *Checker, mode0 mode, self0 types.Type, file0 string, comp0 co
 func (*Checker).checkExpression
   trusted
   ensures ctxKept(c, old(c.mode), old(c.selfType), old(c.Filename), old(c.compiler), old(c.constantScopes), old(c.methodScopes), old(c.phase))
+  // (same hypothesis, for the stack of local environments: pushes and pops are balanced)
+  ensures envs: len(c.localEnvs) == old(len(c.localEnvs))
 
 func (*Checker).checkExpressionWithTailPosition
   trusted
